@@ -9,7 +9,7 @@ from typing import Dict, List, Optional, Tuple
 from ..cfg import CFG, EXIT
 from ..core import Ctx
 from ..model import AnalysisError, FuncInfo, dotted, kwarg, norm, walk_no_nested
-from .common import assigned_value, enclosing, prog, resolve_local
+from .common import assigned_value, enclosing, expand_locals, prog, resolve_local, stores_to
 
 INF = float("inf")
 
@@ -368,6 +368,12 @@ def check_sizes(ctx: Ctx, F: IlpFacts, rule: str):
     sdef = assigned_value(f.node, F.sizes)
     alloc = len(sdef) == 1 and isinstance(sdef[0], ast.Call) and norm(sdef[0].func) in ("np.empty", "np.zeros") and \
         norm(sdef[0].args[0]) in (f"{sn}.num_annotators", f"len({sn}._annotations)", f"len({sn})")
+    # vectorised spelling: sizes = np.array([len(units) for units in self._annotations.values()], ...)
+    if len(sdef) == 1 and isinstance(sdef[0], ast.Call) and norm(sdef[0].func) in ("np.array", "np.asarray", "np.fromiter") and sdef[0].args:
+        comp = expand_locals(f.node, sdef[0].args[0])
+        if isinstance(comp, (ast.ListComp, ast.GeneratorExp)) and len(comp.generators) == 1 and not comp.generators[0].ifs and \
+                norm(comp.generators[0].iter) == f"{sn}._annotations.values()" and norm(comp.elt) == f"len({norm(comp.generators[0].target)})":
+            ok, alloc, node = True, True, sdef[0]
     ctx.check(ok and alloc, rule, f, node, "sizes[i] = number of units of the i-th annotator, in the order of self._annotations (sorted by name)",
               bad_detail="sizes are not filled from enumerate(self._annotations.values()): rows of A no longer correspond to the annotators' units",
               key="sizes")
@@ -424,16 +430,65 @@ def check_decoding(ctx: Ctx, F: IlpFacts, rules: Dict[str, str], result_class: s
     if chosen is None or dis is None:
         return
     F.notes["dis_sel"] = dis
-    outer = [L for L in walk_no_nested(f.node) if isinstance(L, ast.For) and isinstance(L.iter, ast.Call) and dotted(L.iter.func) == "enumerate"
-             and L.iter.args and norm(L.iter.args[0]) == chosen]
-    if len(outer) != 1 or not isinstance(outer[0].target, ast.Tuple):
+    # ---- decoding loops, evaluated symbolically -------------------------------------------------------------
+    # outer loop: one iteration per chosen candidate, in any of the spellings  enumerate(chosen) / zip(chosen, dis) / range(len(chosen))
+    O = None
+    row = None
+    dis_of_row: set = set()
+    pos_name = None
+    for L in [L for L in walk_no_nested(f.node) if isinstance(L, ast.For)]:
+        it = L.iter
+        if isinstance(it, ast.Call) and dotted(it.func) == "enumerate" and it.args and norm(it.args[0]) == chosen and isinstance(L.target, ast.Tuple) \
+                and len(L.target.elts) == 2:
+            O, pos_name, row = L, norm(L.target.elts[0]), norm(L.target.elts[1])
+            dis_of_row = {f"{dis}[{pos_name}]"}
+        elif isinstance(it, ast.Call) and dotted(it.func) == "zip" and len(it.args) == 2 and not it.keywords and isinstance(L.target, ast.Tuple) \
+                and len(L.target.elts) == 2 and sorted(norm(a) for a in it.args) == sorted([chosen, dis]):
+            k = [norm(a) for a in it.args].index(chosen)
+            O, row = L, norm(L.target.elts[k])
+            dis_of_row = {norm(L.target.elts[1 - k])}
+        elif isinstance(it, ast.Call) and dotted(it.func) == "enumerate" and it.args and isinstance(it.args[0], ast.Call) and dotted(it.args[0].func) == "zip" \
+                and sorted(norm(a) for a in it.args[0].args) == sorted([chosen, dis]) and isinstance(L.target, ast.Tuple) and len(L.target.elts) == 2 \
+                and isinstance(L.target.elts[1], ast.Tuple) and len(L.target.elts[1].elts) == 2:
+            k = [norm(a) for a in it.args[0].args].index(chosen)
+            O, pos_name, row = L, norm(L.target.elts[0]), norm(L.target.elts[1].elts[k])
+            dis_of_row = {norm(L.target.elts[1].elts[1 - k]), f"{dis}[{pos_name}]"}
+        elif isinstance(it, ast.Call) and dotted(it.func) == "range" and len(it.args) == 1 and norm(it.args[0]) in (f"len({chosen})", f"{chosen}.shape[0]", f"len({dis})") \
+                and isinstance(L.target, ast.Name):
+            O, pos_name, row = L, L.target.id, f"{chosen}[{L.target.id}]"
+            dis_of_row = {f"{dis}[{pos_name}]"}
+        if O is not None:
+            break
+    if O is None:
         if "slots" in rules:
             ctx.undecided(rules["slots"], f, None, "decoding loop over the chosen candidates not found", key="slots")
         return
-    O = outer[0]
-    aid_, row = norm(O.target.elts[0]), norm(O.target.elts[1])
-    inner = [L for L in O.body if isinstance(L, ast.For) and isinstance(L.iter, ast.Call) and dotted(L.iter.func) == "enumerate"
-             and norm(L.iter.args[0]) == row and isinstance(L.target, ast.Tuple)]
+    aid_ = pos_name
+    import copy as _copy
+
+    class _Subst(ast.NodeTransformer):
+        def __init__(self, env):
+            self.env = env
+
+        def visit_Name(self, n):
+            if isinstance(n.ctx, ast.Load) and n.id in self.env:
+                return _copy.deepcopy(self.env[n.id])
+            return n
+
+    def sub(env, e) -> str:
+        return norm(_Subst(env).visit(_copy.deepcopy(e)))
+
+    oenv: Dict[str, ast.AST] = {}
+    # straight-line locals of the outer body defined before the inner loop (row = chosen[k] ...)
+    inner = []
+    for st in O.body:
+        if isinstance(st, ast.For):
+            itn = st.iter
+            if isinstance(itn, ast.Call) and dotted(itn.func) == "enumerate" and itn.args and sub(oenv, itn.args[0]) == row and isinstance(st.target, ast.Tuple) \
+                    and len(st.target.elts) == 2:
+                inner.append(st)
+        elif isinstance(st, ast.Assign) and len(st.targets) == 1 and isinstance(st.targets[0], ast.Name) and not inner:
+            oenv[st.targets[0].id] = _Subst(oenv).visit(_copy.deepcopy(st.value))
     if len(inner) != 1:
         if "slots" in rules:
             ctx.undecided(rules["slots"], f, O, "loop over the annotator slots of a candidate not found", key="slots")
@@ -441,63 +496,125 @@ def check_decoding(ctx: Ctx, F: IlpFacts, rules: Dict[str, str], result_class: s
     I = inner[0]
     an_i, un_i = norm(I.target.elts[0]), norm(I.target.elts[1])
     cfg = CFG(f.node)
-    # annotator, units = self._annotations.peekitem(annotator_id)
-    pk = [x for x in I.body if isinstance(x, ast.Assign) and isinstance(x.targets[0], ast.Tuple) and
-          norm(x.value) == f"{sn}._annotations.peekitem({an_i})"]
-    if len(pk) != 1:
+
+    class _Idx(Exception):
+        pass
+
+    class _Unknown(Exception):
+        pass
+
+    def ev_slot(stmts, env, scenario, appended):
+        """symbolic run of one slot iteration; scenario 'real': index < len(units); 'null': index == len(units) (units[index] raises IndexError)"""
+        for st in stmts:
+            if isinstance(st, ast.Assign) and len(st.targets) == 1:
+                tg = st.targets[0]
+                val = st.value
+                txt = sub(env, val)
+                if scenario == "null" and env.get("@units") is not None and f"{env['@units']}[{un_i}]" in txt:
+                    raise _Idx()
+                if isinstance(tg, ast.Tuple) and len(tg.elts) == 2 and all(isinstance(x, ast.Name) for x in tg.elts) and \
+                        txt == f"{sn}._annotations.peekitem({an_i})":
+                    env["@annot"], env["@units"] = tg.elts[0].id, tg.elts[1].id
+                    env.pop(tg.elts[0].id, None), env.pop(tg.elts[1].id, None)
+                elif isinstance(tg, ast.Name):
+                    env[tg.id] = _Subst(env).visit(_copy.deepcopy(val))
+                else:
+                    raise _Unknown(norm(st))
+            elif isinstance(st, ast.Expr) and isinstance(st.value, ast.Call) and isinstance(st.value.func, ast.Attribute) and st.value.func.attr == "append" \
+                    and len(st.value.args) == 1 and isinstance(st.value.func.value, ast.Name):
+                txt = sub(env, st.value.args[0])
+                if scenario == "null" and env.get("@units") is not None and f"{env['@units']}[{un_i}]" in txt:
+                    raise _Idx()
+                appended.append((st.value.func.value.id, _Subst(env).visit(_copy.deepcopy(st.value.args[0])), st.value))
+            elif isinstance(st, ast.Try) and not st.finalbody:
+                try:
+                    ev_slot(st.body, env, scenario, appended)
+                    ev_slot(st.orelse, env, scenario, appended)
+                except _Idx:
+                    hs = [h for h in st.handlers if h.type is None or any(norm(x).split(".")[-1] in ("IndexError", "LookupError", "Exception")
+                                                                           for x in (h.type.elts if isinstance(h.type, ast.Tuple) else [h.type]))]
+                    if not hs:
+                        raise
+                    ev_slot(hs[0].body, env, scenario, appended)
+            elif isinstance(st, ast.If):
+                units = env.get("@units")
+                t = st.test
+                truth = None
+                if units is not None and isinstance(t, ast.Compare) and len(t.ops) == 1:
+                    l, r = sub(env, t.left), sub(env, t.comparators[0])
+                    table = {ast.Lt: (True, False), ast.LtE: (True, True), ast.Eq: (False, True), ast.NotEq: (True, False), ast.GtE: (False, True), ast.Gt: (False, False)}
+                    mirror = {ast.Lt: ast.Gt, ast.LtE: ast.GtE, ast.Gt: ast.Lt, ast.GtE: ast.LtE, ast.Eq: ast.Eq, ast.NotEq: ast.NotEq}
+                    op = type(t.ops[0])
+                    if op in table and (l, r) == (un_i, f"len({units})"):
+                        truth = table[op][0 if scenario == "real" else 1]
+                    elif op in table and (r, l) == (un_i, f"len({units})"):
+                        truth = table[mirror[op]][0 if scenario == "real" else 1]
+                if truth is None:
+                    raise _Unknown(norm(t))
+                ev_slot(st.body if truth else st.orelse, env, scenario, appended)
+            elif isinstance(st, (ast.Import, ast.ImportFrom)):
+                continue
+            else:
+                raise _Unknown(norm(st)[:80])
+
+    results = {}
+    unknown = None
+    for scenario in ("real", "null"):
+        env = dict(oenv)
+        app: list = []
+        try:
+            ev_slot(I.body, env, scenario, app)
+            results[scenario] = (app, env)
+        except _Idx:
+            results[scenario] = ("crash", env)
+        except _Unknown as e:
+            unknown = str(e)
+    if unknown is not None:
+        if "slots" in rules:
+            ctx.undecided(rules["slots"], f, I, f"slot decoding contains `{unknown}`: shape not recognised (not a verdict)", key="slots")
+        return
+    real_app, real_env = results["real"]
+    null_app, null_env = results["null"]
+    annot, units = real_env.get("@annot"), real_env.get("@units")
+    if annot is None:
         chk("slots", False, I, "", "slot k is not decoded with the k-th (annotator, units) item of self._annotations")
         return
-    annot, units = norm(pk[0].targets[0].elts[0]), norm(pk[0].targets[0].elts[1])
-    appends = [c for c in ast.walk(I) if isinstance(c, ast.Call) and isinstance(c.func, ast.Attribute) and c.func.attr == "append"]
-    tl = {norm(c.func.value) for c in appends}
-    real = [c for c in appends if isinstance(c.args[0], ast.Tuple) and len(c.args[0].elts) == 2 and norm(c.args[0].elts[0]) == annot
-            and not (isinstance(c.args[0].elts[1], ast.Constant) and c.args[0].elts[1].value is None)]
-    null = [c for c in appends if isinstance(c.args[0], ast.Tuple) and len(c.args[0].elts) == 2 and norm(c.args[0].elts[0]) == annot
-            and isinstance(c.args[0].elts[1], ast.Constant) and c.args[0].elts[1].value is None]
-    ok_slots = len(tl) == 1 and len(real) == 1 and len(null) == 1 and len(appends) == 2
-    unit_ok = False
-    null_ok = False
+    ok_slots = real_app != "crash" and null_app != "crash" and len(real_app) == 1 and len(null_app) == 1 and real_app[0][0] == null_app[0][0]
+    tname = real_app[0][0] if real_app != "crash" and real_app else None
+    unit_ok = null_ok = False
+    real_node = null_node = None
     if ok_slots:
-        uexpr = resolve_local(I, real[0].args[0].elts[1]) if True else None
-        # unit read from that annotator's own set by the candidate's index
-        uv = real[0].args[0].elts[1]
-        udef = [x for x in ast.walk(I) if isinstance(x, ast.Assign) and norm(x.targets[0]) == norm(uv)]
-        unit_ok = (norm(uv) == f"{units}[{un_i}]") or (len(udef) == 1 and norm(udef[0].value) == f"{units}[{un_i}]")
-        # null slot: IndexError handler of the try that reads units[unit_id]  (or an explicit test against len(units))
-        trs = [x for x in I.body if isinstance(x, ast.Try)]
-        if trs and any(null[0] is y for h in trs[0].handlers for y in ast.walk(h)):
-            h = next(h for h in trs[0].handlers if any(null[0] is y for y in ast.walk(h)))
-            null_ok = h.type is not None and norm(h.type) in ("IndexError", "(IndexError,)") and \
-                any(real[0] is y for b in trs[0].body for y in ast.walk(b))
-        else:
-            ifs = enclosing(I, null[0], (ast.If,))
-            null_ok = bool(ifs) and norm(ifs[-1].test) in (f"{un_i} == len({units})", f"{un_i} >= len({units})", f"{un_i} < len({units})", f"{un_i} != len({units})")
-        # exactly one append per iteration
-        nodes = {cfg.node_containing(real[0]), cfg.node_containing(null[0])}
-        per_iter = cfg.every_iteration_passes(I, nodes)
-        ok_slots = ok_slots and per_iter
+        rv, nv = real_app[0][1], null_app[0][1]
+        real_node, null_node = real_app[0][2], null_app[0][2]
+        shape = all(isinstance(v, ast.Tuple) and len(v.elts) == 2 and norm(v.elts[0]) == annot for v in (rv, nv))
+        ok_slots = shape
+        if shape:
+            unit_ok = norm(rv.elts[1]) == f"{units}[{un_i}]"
+            null_ok = isinstance(nv.elts[1], ast.Constant) and nv.elts[1].value is None
+    elif null_app == "crash" and real_app != "crash" and len(real_app) == 1:
+        real_node = real_app[0][2]
     chk("slots", ok_slots, I, "exactly one (annotator, unit-or-None) slot is appended per annotator index of the candidate",
         "a candidate is not decoded into exactly one slot per annotator")
-    chk("own-unit", unit_ok, real[0] if real else I, "the unit of slot k is read from the k-th annotator's own set at the candidate's index (no foreign unit)",
+    chk("own-unit", unit_ok, real_node or I, "the unit of slot k is read from the k-th annotator's own set at the candidate's index (no foreign unit)",
         "the unit of a slot is not units_of_that_annotator[candidate index]")
-    chk("null-decode", null_ok, null[0] if null else I, "an index equal to len(units) (IndexError) decodes to the empty unit: same sentinel as the producer and build_A",
+    chk("null-decode", null_ok, null_node or I, "an index equal to len(units) (IndexError) decodes to the empty unit: same sentinel as the producer and build_A",
         "the empty unit is not decoded from index == len(units of that annotator)")
     # unitary alignment built from that list, cached disorder by the same id
-    tname = next(iter(tl)) if tl else None
     uas = [c for c in ast.walk(O) if isinstance(c, ast.Call) and dotted(c.func) == "UnitaryAlignment"]
-    ok_ua = len(uas) == 1 and tname is not None and norm(uas[0].args[0]) in (tname, f"list({tname})", f"tuple({tname})")
+    ok_ua = len(uas) == 1 and tname is not None and uas[0].args and norm(uas[0].args[0]) in (tname, f"list({tname})", f"tuple({tname})")
     reset = [x for x in O.body if isinstance(x, ast.Assign) and norm(x.targets[0]) == tname and isinstance(x.value, ast.List) and not x.value.elts]
     chk("ua-built", ok_ua and len(reset) == 1 and O.body.index(reset[0]) < O.body.index(I), uas[0] if uas else O,
         "each chosen candidate becomes one UnitaryAlignment built from its own fresh slot list",
         "slot list is not reset per candidate or the unitary alignment is built from something else")
+    ua_names = [norm(a.targets[0]) for a in O.body if isinstance(a, ast.Assign) and uas and a.value is uas[0]]
     emits = [x for x in ast.walk(O) if isinstance(x, ast.Call) and isinstance(x.func, ast.Attribute) and x.func.attr == "append" and uas and
-             x.args and norm(x.args[0]) in [norm(a.targets[0]) for a in O.body if isinstance(a, ast.Assign) and a.value is uas[0]]]
+             x.args and norm(x.args[0]) in ua_names]
     chk("all-emitted", len(emits) == 1 and cfg.every_iteration_passes(O, {cfg.node_containing(emits[0])}) and
         not any(isinstance(x, (ast.Break, ast.Return)) for b in O.body for x in ast.walk(b)), emits[0] if emits else O,
         "every chosen candidate becomes a unitary alignment of the result (no iteration of the decoding loop skips the append)",
         "some chosen candidates can be skipped by the decoding loop: their units would be missing from the alignment")
     dst = [x for x in O.body if isinstance(x, ast.Assign) and norm(x.targets[0]).endswith(".disorder")]
-    chk("ua-disorder", len(dst) == 1 and norm(dst[0].value) == f"{dis}[{aid_}]", dst[0] if dst else O,
+    chk("ua-disorder", len(dst) == 1 and sub(oenv, dst[0].value) in dis_of_row, dst[0] if dst else O,
         "the unitary alignment carries the (normalised) disorder of its own candidate",
         "per-unitary disorder is not taken from the chosen disorders at the same position")
     # result object
@@ -509,7 +626,13 @@ def check_decoding(ctx: Ctx, F: IlpFacts, rules: Dict[str, str], result_class: s
                 [norm(a.targets[0]) for a in O.body if isinstance(a, ast.Assign) and a.value is uas[0]]]
         lst = norm(coll[0].value.func.value) if coll else None
         cont = kwarg(rc, "continuum") or (rc.args[1] if len(rc.args) > 1 else None)
-        chk("result", dotted(rc.func) == result_class and lst is not None and norm(rc.args[0]) == lst and cont is not None and norm(cont) == sn,
+        lst_alias = {lst}
+        for _ in range(3):
+            for a in walk_no_nested(f.node):
+                if isinstance(a, ast.Assign) and isinstance(a.targets[0], ast.Name) and isinstance(a.value, ast.Name) and a.value.id in lst_alias \
+                        and len(stores_to(f.node, a.targets[0].id)) == 1:
+                    lst_alias.add(a.targets[0].id)
+        chk("result", dotted(rc.func) == result_class and lst is not None and rc.args and norm(rc.args[0]) in lst_alias and cont is not None and norm(cont) == sn,
             rc, f"returns {result_class}(all decoded unitary alignments, continuum=self)",
             f"result is not {result_class}(decoded unitary alignments, continuum=self): found {norm(rc.func)}")
         d = kwarg(rc, "disorder")
